@@ -282,9 +282,11 @@ def run(ctx):
         except Raised as r:
             r4.check(not valid and "PyXFormError" in r.mro, desc, "invalid XML name raises PyXFormError", sev.loc(), why_fail=f"raised {r.exc_name}")
     # sibling uniqueness: abstract domain {equal, case-different, distinct}
-    sib = repo.cls("pyxform.section:Section").methods["_validate_uniqueness_of_element_names"]
-    for desc, names, expect in (("equal", ["a", "a"], True), ("case-different", ["Age", "age"], True), ("distinct", ["a", "b"], False),
-                                ("equal non-adjacent", ["a", "b", "a"], True)):
+    sib = repo.cls("pyxform.section:Section").methods.get("_validate_uniqueness_of_element_names")
+    if sib is None:
+        r4.note("Section._validate_uniqueness_of_element_names is gone; sibling uniqueness is decided by the whole-tree obligations only")
+    for desc, names, expect in ((("equal", ["a", "a"], True), ("case-different", ["Age", "age"], True), ("distinct", ["a", "b"], False),
+                                 ("equal non-adjacent", ["a", "b", "a"], True)) if sib is not None else ()):
         it = ctx.interp("C02.R4")
         it.reset([])
         o = Obj(None, {"children": [Obj(None, {"name": n}, name=n) for n in names], "name": "sec"}, name="section")
@@ -297,7 +299,7 @@ def run(ctx):
     # every kind of sibling takes part: a group or repeat named like a sibling question is as ambiguous as two questions
     kinds = {"question": repo.cls("pyxform.question:InputQuestion"), "group": repo.cls("pyxform.section:GroupedSection"),
              "repeat": repo.cls("pyxform.section:RepeatingSection")}
-    for (k1, c1), (k2, c2) in itertools.product(kinds.items(), kinds.items()):
+    for (k1, c1), (k2, c2) in (itertools.product(kinds.items(), kinds.items()) if sib is not None else ()):
         for n1, n2, expect in (("a", "a", True), ("a", "b", False)):
             it = ctx.interp("C02.R4")
             it.reset([])
